@@ -18,6 +18,7 @@ coq/Props/C18.v  `gen_X A ... = X A ...`  hold for the real-number instance RA a
                 gen_chandrupatla_full_fun  gen_chandrupatla_fun  gen_chandrupatla_scalar
 """
 import ast
+from . import srcnorm as _srcnorm
 import os
 import re
 
@@ -413,7 +414,7 @@ class Exec:
 # ----------------------------------------------------------------------------------------------------
 # source access
 def load():
-    mod = ast.parse(open(OPATH).read())
+    mod = _srcnorm.parse_file(OPATH)
     funcs = {}
     np_ok = False
     for n in mod.body:
